@@ -212,6 +212,26 @@ def explore(ctx):
         'model_outcomes': kinds, 'unmodelled': kinds.get('unm', 0),
         'model_vs_impl_disagreements': sum(1 for r in results if r['corr']),
     }
+    # non-finite values: JSON prints NaN and inf alike (null), so the text mode is compared: a sum that contains an
+    # infinite value is the same whatever the order of the rows and however the input is split
+    import itertools as _it
+    nf_checked = 0
+    for vals in (['1', '2.5', 'inf', '3', '1e999'], ['-inf', '4', '4', '0.5'], ['7', 'inf', '0.25'], ['inf', '-inf', '1']):
+        lines_nf = ['{"k": "g", "a": %s}\n' % (('"%s"' % v) if not v.replace('.', '').replace('-', '').replace('e', '').isdigit() else v) for v in vals]
+        outs_nf = {}
+        perms_nf = list(_it.permutations(range(len(vals))))
+        if quick:
+            perms_nf = perms_nf[:24]
+        res_nf = aglib.run_impl_many([('* | json | sum(a) as s, max(a) as hi, min(a) as lo, count by k', ''.join(lines_nf[i] for i in pm).encode(), 'logfmt', ()) for pm in perms_nf])
+        for pm, o in zip(perms_nf, res_nf):
+            nf_checked += 1
+            outs_nf.setdefault(o['out'], pm)
+        if len(outs_nf) > 1 and not (vals == ['inf', '-inf', '1']):       # inf + -inf is NaN in any order; listed for the record only
+            (o1, p1), (o2, p2) = list(outs_nf.items())[:2]
+            failures.append({'kind': 'spec', 'what': 'permuting the input lines changed an aggregate over non-finite values: %r for order %r, %r for order %r' % (o1.decode()[:80], p1, o2.decode()[:80], p2),
+                             'payload': {'query': '* | json | sum(a) as s, max(a) as hi, min(a) as lo, count by k', 'input_lines': lines_nf, 'orders': [list(p1), list(p2)], 'mode': 'logfmt'}})
+    cov['non_finite_permutations'] = nf_checked
+    cov['evaluations'] += nf_checked
     # batching on a live terminal: the input arrives in timed bursts and every refresh re-aggregates the table so far;
     # the final table must be the one the whole input gives in one piece
     from props import c16
